@@ -482,34 +482,55 @@ def qr_solve_rows(ck, prog):
                 if ATOMS[rel] == frozenset("z"):
                     square_edges.append((dst, other))
     n = 0
+
+    def sources(o, at, depth=0):
+        """(value term, block of the assignment that selects it) for every alternative of an operand: a payload chosen by an
+        `if` expression is a temporary with one assignment per arm"""
+        if o["k"] not in ("move", "copy") or o["p"]["pr"] or depth > 6:
+            return [(res.operand(o), at)]
+        l = o["p"]["l"]
+        if b.is_arg(l):
+            return [(("arg", l, b.local_name(l)), at)]
+        ds = [d for d in b.defs.get(l, []) if d.kind in ("assign", "call")]
+        if len(ds) >= 2 or (len(ds) == 1 and ds[0].kind == "assign" and ds[0].data["r"]["k"] == "use"):
+            out = []
+            for d in ds:
+                if d.kind == "assign" and d.data["r"]["k"] == "use":
+                    out += sources(d.data["r"]["o"], d.bb, depth + 1)
+                elif d.kind == "call":
+                    out.append((res.call(d.data, 0, ()), d.bb))
+                else:
+                    out.append((res.rvalue(d.data["r"], 0, ()), d.bb))
+            return out
+        return [(res.operand(o), at)]
     for i, j, s in b.stmts():
         if not (s["k"] == "assign" and s["r"]["k"] == "agg" and s["r"].get("variant") == "Ok" and s["r"]["ops"]):
             continue
-        n += 1
-        pay = res.operand(s["r"]["ops"][0])
-        roots = [pay] + list(alts(pay))
-        is_b = any(a[0] == "arg" and a[1] == 2 for a in roots) or (pay[0] == "phi" and any(a[0] == "arg" and a[1] == 2 for a in pay[2]))
-        if is_b:
-            if any(b.dominates(dst, i) and not b.dominates(other, i) for dst, other in square_edges):
-                ck.ok(rule, inst, b.path, b.where(i, j), "b handed back behind rows(QR) == cols(QR)")
+        for pay, at in sources(s["r"]["ops"][0], i):
+            n += 1
+            roots = [pay] + list(alts(pay))
+            is_b = any(a[0] == "arg" and a[1] == 2 for a in roots)
+            if is_b:
+                if any(b.dominates(dst, at) and not b.dominates(other, at) for dst, other in square_edges):
+                    ck.ok(rule, inst, b.path, b.where(at), "b handed back behind rows(QR) == cols(QR)")
+                else:
+                    ck.violation(rule, inst, b.path, b.where(i, j), ordinal=n, expected="Ok(b.slice(0..n, ..)) for m > n",
+                                 found="the m-row work matrix b is returned as the solution for every shape: rows n..m of a tall system are Q^T b residue")
             else:
-                ck.violation(rule, inst, b.path, b.where(i, j), ordinal=n, expected="Ok(b.slice(0..n, ..)) for m > n",
-                             found="the m-row work matrix b is returned as the solution for every shape: rows n..m of a tall system are Q^T b residue")
-        else:
-            rows = None
-            for a in roots:
-                if a[0] == "call" and a[1].split("::")[-1] == "slice" and len(a[2]) >= 2:
-                    r0 = a[2][1]
-                    if r0[0] == "agg" and r0[1].endswith("Range::Range"):
-                        rows = r0[2][1]
-                if a[0] == "call" and a[1].split("::")[-1] == "zeros" and a[2]:
-                    rows = a[2][0]
-            if rows is not None and is_qr_dim(rows, "cols"):
-                ck.ok(rule, inst, b.path, b.where(i, j), f"payload with {render(rows)} rows")
-            elif rows is not None:
-                ck.violation(rule, inst, b.path, b.where(i, j), ordinal=n, expected="cols(QR) rows", found=f"payload with `{render(rows)[:50]}` rows")
-            else:
-                ck.ok(rule, inst, b.path, b.where(i, j), f"payload `{render(pay)[:60]}` (row count not syntactic)")
+                rows = None
+                for a in roots:
+                    if a[0] == "call" and a[1].split("::")[-1] == "slice" and len(a[2]) >= 2:
+                        r0 = a[2][1]
+                        if r0[0] == "agg" and r0[1].endswith("Range::Range"):
+                            rows = r0[2][1]
+                    if a[0] == "call" and a[1].split("::")[-1] == "zeros" and a[2]:
+                        rows = a[2][0]
+                if rows is not None and is_qr_dim(rows, "cols"):
+                    ck.ok(rule, inst, b.path, b.where(at), f"payload with {render(rows)} rows")
+                elif rows is not None:
+                    ck.violation(rule, inst, b.path, b.where(i, j), ordinal=n, expected="cols(QR) rows", found=f"payload with `{render(rows)[:50]}` rows")
+                else:
+                    ck.ok(rule, inst, b.path, b.where(at), f"payload `{render(pay)[:60]}` (row count not syntactic)")
     if n == 0:
         ck.note(f"{inst}: no Ok(..) in QR::solve: no instance")
 
